@@ -51,6 +51,10 @@ type session struct {
 	// and the driver issues Reconnect while the attempt is pending, so the
 	// attempt — and every target that joined it — ends with context.Canceled.
 	DialCancel bool
+	// EdgeGap > 0 (outcome block): after the scripted messages the target keeps
+	// sending with gaps just around the receive timeout (EdgeGap), so that message
+	// arrivals race the expiry of the receive timer, until the client goes away.
+	EdgeGap time.Duration
 }
 
 type event struct {
@@ -257,6 +261,28 @@ func (s *server) Subscribe(stream gpb.GNMI_SubscribeServer) error {
 			runtime.Gosched()
 		}
 	}
+	if sess.EdgeGap > 0 {
+		for i := len(sess.Msgs); i < len(sess.Msgs)+60; i++ {
+			// gap in (EdgeGap - 1.2 ms, EdgeGap + 0.3 ms), a fixed function of the position
+			jit := time.Duration((i*7919+idx*104729)%1501-1200) * time.Microsecond
+			select {
+			case <-stream.Context().Done():
+				return stream.Context().Err()
+			case <-time.After(sess.EdgeGap + jit):
+			}
+			id := int64(idx)*1000 + int64(i) + 1
+			resp := &gpb.SubscribeResponse{Response: &gpb.SubscribeResponse_Update{Update: &gpb.Notification{Timestamp: id}}}
+			ts.mu.Lock()
+			ts.sentBy[sid] = append(ts.sentBy[sid], id)
+			atomic.AddInt32(&ts.sentN, 1)
+			ts.cond.Broadcast()
+			ts.mu.Unlock()
+			s.e.r.Count("edge_messages_sent_around_the_receive_timeout", 1)
+			if err := stream.Send(resp); err != nil {
+				return err
+			}
+		}
+	}
 	if strings.HasPrefix(sess.Outcome, "healthy") {
 		ts.mu.Lock()
 		h := &hsess{idx: idx, actsAtOpen: ts.driverActs}
@@ -411,8 +437,13 @@ func runTrial(r *vlib.Run, mode string, trial int, rng *rand.Rand) {
 		if healthy {
 			overrides[i] = []string{"", healthyTimeout.String(), healthyTimeout.String(), "0s"}[rng.Intn(4)]
 		}
+		if !healthy && rng.Intn(4) == 0 {
+			overrides[i] = "8ms" // short enough for many arrivals around its expiry (EdgeGap sessions)
+		}
 		effective[i] = recvTimeout
 		switch overrides[i] {
+		case "8ms":
+			effective[i] = 8 * time.Millisecond
 		case healthyTimeout.String():
 			effective[i] = healthyTimeout
 		case "50ms":
@@ -476,6 +507,9 @@ func runTrial(r *vlib.Run, mode string, trial int, rng *rand.Rand) {
 			case "block":
 				if effective[i] > 0 && rng.Intn(2) == 0 {
 					s.Action = "none" // the receive timeout ends it
+					if effective[i] < 20*time.Millisecond && rng.Intn(4) > 0 {
+						s.EdgeGap = effective[i]
+					}
 				} else {
 					s.Action = []string{"reconnect", "remove", "double-remove"}[rng.Intn(3)]
 				}
